@@ -17,11 +17,13 @@ def run(ctx):
         text, ast, exp = cgen.gen_c13(ctx.rng, depth=ctx.rng.choice([1, 2, 3, 4]))
         for L in (LOADERS if i % 4 == 0 else [ctx.rng.choice(LOADERS)]):
             cases.append([text, ast, exp, L])
+        if i % 3 == 0:      # the same document after a deep (stateful, __setstate__) construction whose state aliases an already-built node
+            cases.append([text, ast, exp, ctx.rng.choice(LOADERS + ['CUnsafeLoader']), True])
     multi = []
     for i in range(ctx.n(300, 3000)):     # anchors do not cross documents
         t1, a1, e1 = cgen.gen_c13(ctx.rng, 2)
         if e1 == 'ok' and '&a1 ' in t1: multi.append(['--- ' + t1 + '\n--- [*a1]\n', ['seq', None, []], 'ComposerError', ctx.rng.choice(LOADERS)])
-    corr.direct(ctx, 'c13', cases, describe=lambda c: dict(text=c[0], expect=c[2], loader=c[3]), label='identity')
+    corr.direct(ctx, 'c13', cases, describe=lambda c: dict(text=c[0], expect=c[2], loader=c[3], after_stateful_prefix=(len(c) > 4)), label='identity')
     corr.direct(ctx, 'c13m', multi, describe=lambda c: dict(text=c[0], expect=c[2], loader=c[3]), label='across_documents')
     ctx.partial = [dict(theorem='compose_alias_identity / construct_identity (whole documents, cycles)', missing='one-step lemmas proved; the global iff is decided by correspondence and the direct run')]
     return ctx.finish(assumptions=['LibYAML composer is observed, not modelled'])
